@@ -290,13 +290,16 @@ def write_replay(prop, name, obj):
 
 
 def write_evidence(prop, tier, seed, coverage, assumptions_, wall, violations):
-    os.makedirs(os.path.join(VERIF, 'evidence'), exist_ok=True)
+    # tools/seed.py (runs on deliberately broken trees) redirects this: evidence/ itself only ever holds
+    # records of runs against /repo as it stands
+    evdir = os.environ.get('VERIF_EVIDENCE_DIR') or os.path.join(VERIF, 'evidence')
+    os.makedirs(evdir, exist_ok=True)
     ev = {
         'property_id': prop, 'tier': tier, 'seed': seed, 'level': 'proof',
         'coverage': coverage, 'assumptions': assumptions_, 'wall_s': round(wall, 2),
         'violations': violations,
     }
-    with open(os.path.join(VERIF, 'evidence', '%s.json' % prop), 'w') as f:
+    with open(os.path.join(evdir, '%s.json' % prop), 'w') as f:
         json.dump(ev, f, indent=1, default=lambda o: o.hex() if isinstance(o, (bytes, bytearray)) else repr(o))
 
 
